@@ -54,19 +54,25 @@ def gen_case(rng, tier):
     ncols = rng.choice([1, 2, 3, 3, 4, 5, 6])
     kinds = [gen_kind(rng, ncols) for _ in range(ncols)]
     onupd = [gen_kind(rng, ncols, True) for _ in range(ncols)]
-    form = rng.choice(["insert1", "insert1", "insert1v", "insert1rd", "insertN", "insertN", "insertN", "insertNret", "insertNrd", "update1", "update1", "updateN", "updateN", "orm"])
-    if form.startswith("insert1") or form == "update1":
+    form = rng.choice(["insert1", "insert1", "insert1v", "insert1rd", "insertN", "insertN", "insertN", "insertNret", "insertNrd", "insertMV", "insertMV", "update1", "update1", "update1ov", "update1ov", "updateN", "updateN", "orm"])
+    if form == "insertMV":
+        # multi-row VALUES: no context-sensitive defaults (their view of the other rows'
+        # parameters is a different question)
+        kinds = [(["c", 300] if k[0] == "x" else k) for k in kinds]
+    if form.startswith("insert1") or form in ("update1", "update1ov"):
         n = 1
     else:
         n = rng.choice([2, 2, 3, 4, 6] + ([9, 15] if tier == "thorough" else []))
     hetero = "no"
     p_supply = rng.choice([0.2, 0.5, 0.5, 0.8])
     first = [gen_cell(rng, p_supply) for _ in range(ncols)]
-    if form in ("update1", "updateN") and all(c == "_" for c in first):
+    if form in ("update1", "update1ov", "updateN", "insertMV") and all(c == "_" for c in first):
         first[rng.randrange(ncols)] = 4
     rows = [first]
     mask = [c != "_" for c in first]
     r = rng.random()
+    if form == "insertMV":
+        r = 1.0
     if n > 1 and r < 0.12:
         hetero = "extra"  # later sets supply a column the first omits (F16)
     elif n > 1 and r < 0.2:
@@ -84,7 +90,18 @@ def gen_case(rng, tier):
         rows[i][c] = "_"
     else:
         hetero = "no"
+    if form == "insertMV":
+        # later rows may leave out (or set to NULL) a column of the first row when that
+        # column has a Python / SQL-expression default
+        for row in rows[1:]:
+            for c, m in enumerate(mask):
+                if m and kinds[c][0] in "scq" and rng.random() < 0.35:
+                    row[c] = "_"
+                elif m and rng.random() < 0.3:
+                    row[c] = "N"
     pk = rng.choice(["autoinc", "autoinc", "autoinc", "callable", "sqlexpr", "supplied"])
+    if form == "insertMV" and pk == "sqlexpr":
+        pk = "autoinc"
     implicit_returning = rng.random() < 0.85
     if pk == "sqlexpr" and form in ("insertNrd", "orm"):
         # without RETURNING the key expression would be pre-executed once per row before
@@ -99,6 +116,7 @@ def gen_case(rng, tier):
         "pk": pk,
         "implicit_returning": implicit_returning,
         "page": rng.choice([None, 1, 2]),
+        "keyed": rng.random() < 0.4,
         "seed": rng.randrange(1 << 30),
     }
 
@@ -195,7 +213,11 @@ def build(case):
             kwc["onupdate"] = u["py"]
         if "server" in u:
             kwc["server_onupdate"] = FetchedValue()
-        cols.append(Column(names[c], Integer, **kwc))
+        if case.get("keyed"):
+            # the column's key (used in parameters / attribute names) differs from its SQL name
+            cols.append(Column("col%d" % c, Integer, key=names[c], **kwc))
+        else:
+            cols.append(Column(names[c], Integer, **kwc))
     m = MetaData()
     t = Table("t", m, *cols, implicit_returning=case["implicit_returning"])
     m.create_all(eng)
@@ -220,6 +242,8 @@ def run_case(case):
     form = case["form"]
     rows = case["rows"]
     obs = {"case": case, "exc": None, "names": names, "stored": None, "olds": None}
+    obs["sqlnames"] = [t.c[nm].name for nm in names]
+    name2key = {col.name: col.key for col in t.c}
     params = []
     for i, r in enumerate(rows):
         p = {names[c]: cell_val(r[c]) for c in range(ncols) if r[c] != "_"}
@@ -260,6 +284,10 @@ def run_case(case):
                     res_info["returned_ids"] = [row[0] for row in r.all()]
                 elif form == "insertNrd":
                     r = c.execute(t.insert().return_defaults(sort_by_parameter_order=True), params)
+                elif form == "insertMV":
+                    r = c.execute(t.insert().values(params))
+                elif form == "update1ov":
+                    r = c.execute(t.update().where(t.c.id == old_ids[0]).ordered_values(*[(t.c[k], v) for k, v in params[0].items()]))
                 elif form == "update1":
                     r = c.execute(t.update().where(t.c.id == old_ids[0]).values(**params[0]))
                 elif form == "updateN":
@@ -273,18 +301,18 @@ def run_case(case):
                 if r is not None:
                     comp = r.context.compiled
                     res_info["sql"] = str(comp)
-                    res_info["prefetch"] = [c_.name for c_ in (comp.insert_prefetch or comp.update_prefetch or [])]
+                    res_info["prefetch"] = [getattr(c_, "name", None) or c_.key for c_ in (comp.insert_prefetch or comp.update_prefetch or [])]
                     if form in ("insert1", "insert1v", "insert1rd"):
                         res_info["ipk"] = tuple(r.inserted_primary_key) if r.inserted_primary_key is not None else None
                         res_info["lip"] = dict(r.last_inserted_params())
                     if form == "insert1rd":
                         rd = r.returned_defaults
-                        res_info["rd"] = None if rd is None else dict(rd._mapping)
+                        res_info["rd"] = None if rd is None else {name2key.get(k, k): v for k, v in rd._mapping.items()}
                     if form == "insertNrd" and case["implicit_returning"]:
                         res_info["ipk_rows"] = [tuple(x) for x in r.inserted_primary_key_rows]
                         rdr = r.returned_defaults_rows
-                        res_info["rd_rows"] = None if rdr is None else [dict(x._mapping) for x in rdr]
-                    if form == "update1":
+                        res_info["rd_rows"] = None if rdr is None else [{name2key.get(k, k): v for k, v in x._mapping.items()} for x in rdr]
+                    if form in ("update1", "update1ov"):
                         res_info["lup"] = dict(r.last_updated_params())
     except Exception as e:  # noqa: BLE001
         obs["exc"] = exc_enum(e)
@@ -292,7 +320,7 @@ def run_case(case):
     obs["info"] = res_info
     obs["counts"] = list(cnt.upd if is_update else cnt.ins)
     with eng.connect() as c:
-        allrows = [dict(x._mapping) for x in c.execute(sa.select(t).order_by(t.c.id))]
+        allrows = [{col.key: x._mapping[col] for col in t.c} for x in c.execute(sa.select(t).order_by(t.c.id))]
     obs["all"] = allrows
     obs["log"] = list(hub.log)
     eng.dispose()
@@ -431,10 +459,10 @@ def oracle(obs):
     if form == "orm":
         return oracle_orm(obs)
     if obs["exc"] is not None:
-        if missing_applies(case) and obs["exc"].startswith("StatementError"):
+        if form != "insertMV" and missing_applies(case) and obs["exc"].startswith("StatementError"):
             return None  # a later set lacks a key of the statement: rejected loudly
         return ("c13-exception:" + obs["exc"].split(":")[0], "unexpected %s" % obs.get("exc_text"))
-    if missing_applies(case) and n > 1:
+    if form != "insertMV" and missing_applies(case) and n > 1:
         return ("c13-missing-key-accepted", "a later parameter set lacks a key of the first set but nothing was raised")
     rows = stored_rows(obs)
     if rows is None:
@@ -542,7 +570,7 @@ def classify(case, obs, key):
 # ---------------------------------------------------------------------------- correspondence
 def disp_of_sql(obs):
     """per column b/p/i/o read from the compiled statement text + prefetch list"""
-    names = obs["names"]
+    names = obs.get("sqlnames") or obs["names"]
     sql = obs["info"].get("sql")
     if not sql:
         return None
@@ -634,6 +662,9 @@ def corr_lines(obs):
         impl = "exc " + obs["exc"]
     if is_update:
         out.append(("update", impl, "defaults update %s %s %s" % (kinds, ps, fmt_rows(obs["olds"]))))
+    elif form == "insertMV":
+        out.append(("insert-multivalues", impl, "defaults insertmv %s %s" % (kinds, ps)))
+        return out
     else:
         out.append(("insert", impl, "defaults insert %s %s" % (kinds, ps)))
     d = disp_of_sql(obs)
@@ -688,10 +719,17 @@ def exhaustive_small(ctx, names_, cases, impl_out, reqs):
     kinds = [["s", 7], ["c", 100], ["x", 0, 1000], ["q", 9], ["v", 3], ["n"]]
     for k in kinds:
         for cell in (5, "N", "_"):
-            for form in ("insert1", "insertN", "insertNret", "update1", "updateN"):
-                n = 1 if form in ("insert1", "update1") else 3
+            for form in ("insert1", "insertN", "insertNret", "insertMV", "update1", "update1ov", "updateN"):
+                if form == "insertMV" and k[0] in "xvn" and cell == "_":
+                    continue
+                n = 1 if form in ("insert1", "update1", "update1ov") else 3
                 rows = [[i + 1, cell] for i in range(n)]
-                case = {"kinds": [["n"], k], "onupd": [["n"], k], "form": form, "rows": rows, "hetero": "no", "pk": "autoinc", "implicit_returning": True, "page": 2, "seed": 0}
+                if form == "insertMV":
+                    # first row supplies a value, the later rows carry the cell under test
+                    rows = [[1, 9]] + [[i + 2, cell] for i in range(2)]
+                    if k[0] == "x":
+                        continue
+                case = {"kinds": [["n"], k], "onupd": [["n"], k], "form": form, "rows": rows, "hetero": "no", "pk": "autoinc", "implicit_returning": True, "page": 2, "keyed": form.endswith("ov"), "seed": 0}
                 one(ctx, case, names_, cases, impl_out, reqs)
 
 
@@ -706,7 +744,7 @@ def run(ctx):
     ctx.assumptions.append("ORM: None on an attribute means 'omit' (documented), so the oracle expects the default there")
     names_, cases, impl_out, reqs = [], [], [], []
     exhaustive_small(ctx, names_, cases, impl_out, reqs)
-    n = 900 if ctx.tier == "quick" else 12000
+    n = 650 if ctx.tier == "quick" else 12000
     a, b, c, d = explore(ctx, n, ctx.tier)
     names_ += a
     cases += b
